@@ -12,6 +12,13 @@ CHECKS = {
         technique="deterministic simulation of emitted VHDL (seeded scheduler, stimulus, stall faults) vs executable reference model",
         ref="6/C01",
     ),
+    "C04": dict(
+        level="fault_enumeration",
+        text="Reset as the injected crash/restart fault: for every generated coroutine design (4 reset kinds, objects with default / without default / noreset, on_reset actions) a fault-free run is recorded and the reset is then injected at EVERY clock position of that run (seeded duration; async resets also between edges and as pulses covering no edge; double resets), followed by fresh inputs. Checked per clock and after every reset change against the reference with the reset rule, plus a model-free metamorphic check: trace after release == trace of a power-up run. Enumeration is complete along each sampled run; runs and designs are sampled.",
+        note="Trusted: VSIM, the coroutine reference and its reset rule; reset never changes at the active edge instant; recorded runs <= 110 clocks.",
+        technique="deterministic simulation with reset-fault enumeration at every clock position of sampled runs; reference model + power-up equivalence",
+        ref="6/C04",
+    ),
 }
 
 NOT_APPLICABLE = {
